@@ -32,8 +32,11 @@ CLAIMS = {
              "lookup).  Counterexamples are replayed on a real temp directory with the real random module."),
     "C07": dict(
         engine="A", category="model_checking", design_ref="DESIGN.md 5/C07",
-        technique="CrossHair symbolic execution of the real sow on FakeFS: batch files compared with the direct "
-                  "run's call log (Engine B kernel for n<=48 to follow)",
+        engine_override="AB",
+        technique="source-to-SMT (pyz3): choose_batch_settings + Sower translated from the AST to z3 Int terms, "
+                  "request symbolic over all integers, n concrete per query (n<=16 quick, <=48 thorough), negated "
+                  "obligations unsat per path; plus CrossHair symbolic execution of the real sow on FakeFS comparing "
+                  "batch files with the direct run's call log",
         text="For every (N<=6 quick / <=10 thorough, batchsize|num_batches|neither), grids, case lists and cases x "
              "sub-grid, with and without farmer constants/resources and under every shuffle permutation of N<=4: the "
              "batch files partition the direct run's settings exactly, sizes honour the request, and the crop reports "
@@ -62,6 +65,32 @@ CLAIMS = {
         text="All combinations of clean_up x allow_incomplete x wait x failure stage on raw crops (farmer kinds to "
              "follow): the crop directory survives every reap that raises and every reap whose effective clean_up "
              "is false; the corrected retry returns exactly the direct-run result."),
+    "C19": dict(
+        engine="A", engine_override="AB", category="other", design_ref="DESIGN.md 5/C19",
+        technique="source-to-SMT (pyz3) of the Welford updates over z3 Reals: closed-form identities unsat-checked "
+                  "per K; converged() inequality with sqrt as fresh root; CrossHair on the real estimate_from_repeats "
+                  "loop with converged as a solver-chosen oracle",
+        text="PARTIAL claim. Decided: (i) over the reals, after K samples (every K<=40 and K=100 quick; K<=120, 250, "
+             "500 thorough) count, mean, M2/var, covariance C and every covariance-matrix entry equal the whole-sample "
+             "closed forms, which are symmetric, hence independent of chunking and order; (ii) converged(rtol, atol) "
+             "<=> err < rtol*|mean| + atol; (iii) the real estimate_from_repeats loop never exceeds max_samples, "
+             "reports exactly the samples drawn, and stops early only at a count where convergence was reported.  "
+             "NOT decided: floating-point accuracy on ill-conditioned data (QF_FP queries are out of reach); a "
+             "regression to an algebraically identical but unstable formula is not detected.",
+        note="Trusted base: pyz3 translator (validated against the real classes on concrete vectors on every run), "
+             "z3 nonlinear real arithmetic, CrossHair; reals stand in for binary64."),
+    "C20": dict(
+        engine="B", category="model_checking", design_ref="DESIGN.md 5/C20",
+        technique="source-to-SMT (pyz3): format_number_with_error translated from the AST to z3 Real/Int terms, one "
+                  "unsat query per path per pair of decade classes (unbounded real mantissas), cvc5 cross-check, "
+                  "witnesses replayed on the real function through an independent reader",
+        text="For every decade class 10^a<=|x|<10^(a+1), 10^b<=err<10^(b+1) with a in [-6,6] (quick) / [-30,30] "
+             "(thorough), b-a in [-13,13], both signs, and x=0: on every path of the translated source the output "
+             "denotes (by the bracket convention) the error rounded to two significant figures and the value rounded "
+             "to the same last digit.  Every rounding boundary lies inside a query (mantissas are unbounded reals).",
+        note="Trusted base: pyz3 translator and its primitive models of float formatting (validated against the real "
+             "function on ~700 concrete inputs on every run), z3 (sample of queries re-decided by cvc5); binary64 "
+             "divisions modelled as exact (<=1 ulp, only matters at rounding ties)."),
 }
 
 NOT_APPLICABLE = {
@@ -83,7 +112,7 @@ def build():
             "thorough_cmd": "./check %s --tier thorough" % pid,
             "evidence_file": "evidence/%s.json" % pid,
             "replay_cmd_template": "./check %s --replay {path}" % pid,
-            "engine": {"A": "engine_a", "B": "engine_b", "AB": "engine_a+engine_b"}[c["engine"]],
+            "engine": {"A": "engine_a", "B": "engine_b", "AB": "engine_a+engine_b"}[c.get("engine_override", c["engine"])],
             "level_claimed": {"category": c["category"], "text": c["text"], "design_ref": c["design_ref"]},
             "level_note": c.get("note", A_NOTE),
             "technique": c["technique"],
@@ -112,7 +141,8 @@ def build():
              "kind_free_text": "CrossHair (symbolic execution of the real Python functions, z3 per branch) over "
                                "harnesses in vf/harness with environment stubs patched into module globals"},
             {"name": "engine_b", "path": "vf/engine_b/pyz3.py",
-             "serves_properties": [p for p in sorted(CLAIMS) if "B" in CLAIMS[p]["engine"]],
+             "serves_properties": [p for p in sorted(CLAIMS)
+                                   if "B" in CLAIMS[p].get("engine_override", CLAIMS[p]["engine"])],
              "kind_free_text": "source-to-SMT: AST of numeric kernels re-read from /repo, translated to z3 Int/Real "
                                "terms, negated property must be unsat per class; cvc5 cross-check"},
         ],
